@@ -247,7 +247,9 @@ def r16a(model: Model, rr: RuleResult):
                 # well-definedness (1==s) == (0==d) for both axes
                 wd = 0
                 for e, pol in facts:
-                    if pol and isinstance(e, ast.Compare) and isinstance(e.ops[0], ast.Eq) and isinstance(e.left, ast.Compare):
+                    # `A == B` known true, or `A != B` known false (the guard-clause spelling: `if A != B or ...: return <fallback>`)
+                    if isinstance(e, ast.Compare) and len(e.ops) == 1 and isinstance(e.left, ast.Compare) and \
+                            ((pol and isinstance(e.ops[0], ast.Eq)) or (not pol and isinstance(e.ops[0], ast.NotEq))):
                         letters = {comp.get(n) for n in names_in(e)}
                         if letters in ({"A", "E"}, {"D", "F"}):
                             wd += 1
@@ -509,13 +511,35 @@ def r16d(model: Model, rr: RuleResult):
            "The uniform (circle-preserving) part must be applied to the circles and the residual must wrap the result, never the other way round")
     fi = model.func("paint", "PaintRadialGradient.apply_transform")
     t = " ".join(norm(st) for st in fi.body)
-    if "sx, _ = uniform_transform.getscale()" in t and "r0 = self.r0 * sx" in t and "r1 = self.r1 * sx" in t:
+    cfg_r = cfg_of(fi)
+
+    def is_uniform_part(e, at) -> bool:
+        """e is the first component of _decompose_uniform_transform(transform): a name unpacked from it at position 0, or <name>[0] of a name bound to the call"""
+        if isinstance(e, ast.Subscript) and isinstance(e.slice, ast.Constant) and e.slice.value == 0 and isinstance(e.value, ast.Name):
+            ds = cfg_r.reaching(at, e.value.id)
+            return bool(ds) and all(isinstance(d.value, ast.Call) and callee_tail(d.value) == "_decompose_uniform_transform" for d in ds)
+        if isinstance(e, ast.Name):
+            for st in walk_body(fi):
+                if isinstance(st, ast.Assign) and isinstance(st.targets[0], ast.Tuple) and len(st.targets[0].elts) == 2 and norm(st.targets[0].elts[0]) == e.id \
+                        and isinstance(st.value, ast.Call) and callee_tail(st.value) == "_decompose_uniform_transform":
+                    return True
+        return False
+    gs = [st for st in walk_body(fi) if isinstance(st, ast.Assign) and isinstance(st.value, ast.Call) and callee_tail(st.value) == "getscale"
+          and isinstance(st.targets[0], ast.Tuple) and norm(st.targets[0].elts[0]) == "sx"]
+    if gs and is_uniform_part(gs[0].value.func.value, cfg_r.node_for(gs[0])) and "r0 = self.r0 * sx" in t and "r1 = self.r1 * sx" in t:
         rr.ok("radii are scaled by the uniform part's scale")
     else:
         rr.bad_shape(fi, fi.node, "radii are not scaled by the uniform transform's scale factor", construct="PaintRadialGradient.apply_transform: radii")
     d = model.func("paint", "_decompose_uniform_transform")
     rets = [st for st in walk_body(d) if isinstance(st, ast.Return)]
-    if rets and norm(rets[0].value) == "(uniform_transform, remaining_transform)":
+    from ..dataflow import resolved as _res16d
+    dcfg = cfg_of(d)
+    rv = rets[0].value if rets else None
+    first_ok = second_ok = False
+    if isinstance(rv, ast.Tuple) and len(rv.elts) == 2:
+        first_ok = norm(_res16d(dcfg, dcfg.node_for(rets[0]), rv.elts[0])).startswith("Affine2D.compose_ltr((Affine2D(")
+        second_ok = "decompose_translation()" in norm(_res16d(dcfg, dcfg.node_for(rets[0]), rv.elts[1]))
+    if rets and (norm(rv) == "(uniform_transform, remaining_transform)" or (first_ok and second_ok)):
         rr.ok("_decompose_uniform_transform returns (uniform, remaining) in that order")
     else:
         rr.bad(d, d.node, "_decompose_uniform_transform no longer returns (uniform, remaining)", construct="_decompose_uniform_transform: return order")
